@@ -599,6 +599,14 @@ pub fn classify(spec: &Spec, content: &str) -> Verdict {
             .map(|l| l[0].to_string())
             .collect();
         let consecutive = nums.iter().enumerate().all(|(i, n)| *n == (i + 1).to_string());
+        // certain under every reading (position of the line, or the standard's ascending code numbers): there is
+        // no number 0 and the numbers never go down
+        if nums.iter().any(|n| n == "0") {
+            return Verdict::Reject("lineno:zero".into());
+        }
+        if nums.windows(2).any(|w| w[1] < w[0]) {
+            return Verdict::Reject("lineno:decreasing".into());
+        }
         if !consecutive {
             unspec = Some("line-number-sequence".into());
         }
@@ -770,6 +778,16 @@ pub fn candidates(spec: &Spec, k: usize, r: &mut Rng, random_extra: usize) -> Ve
     let none = |_: usize, _: usize, _: usize| -> Option<String> { None };
     let canonical = render(spec, k, &none, &default_counts);
     out.push(Candidate { content: canonical.clone(), component: "-".into(), class: "canonical".into() });
+    // numbered lines: sequences of line numbers other than 1, 2, 3, ...
+    if spec.lines.iter().any(|l| l.comps.iter().any(|c| c.name == "lineno")) {
+        let account = canonical.lines().next().filter(|l| l.starts_with('/')).map(|l| format!("{l}\n")).unwrap_or_default();
+        for (lab, seq) in [("0", vec![0]), ("0,1", vec![0, 1]), ("1,0", vec![1, 0]), ("2,1", vec![2, 1]), ("1,2,3,2", vec![1, 2, 3, 2]), ("1,3,2", vec![1, 3, 2]), ("1,2,1", vec![1, 2, 1]), ("1,1", vec![1, 1]), ("1,2,2", vec![1, 2, 2]), ("2", vec![2]), ("1,3", vec![1, 3])] {
+            let body: Vec<String> = seq.iter().enumerate().map(|(i, n)| format!("{n}/TEXT LINE {}", i + 1)).collect();
+            for acc in [account.as_str(), ""] {
+                out.push(Candidate { content: format!("{acc}{}", body.join("\n")), component: "lineno".into(), class: format!("line-numbers={lab}") });
+            }
+        }
+    }
     // minimal: optional lines / components absent, one repetition
     {
         let counts = |li: usize| if spec.lines[li].optional { 0 } else { 1 };
